@@ -723,3 +723,197 @@ Proof.
   destruct (first_unreach (a :: l)) as [n|]; [|discriminate].
   cbn [opt_routes]. destruct (mp_routes n); [reflexivity|discriminate].
 Qed.
+
+(* ---------- the rendered form of the attributes ---------- *)
+From Coq Require Import Permutation.
+
+Lemma chunks_concat k : (0 < k)%nat -> forall fuel l, (length l <= fuel)%nat -> concat (chunks fuel k l) = l.
+Proof.
+  intros Hk. induction fuel as [|fuel IH]; intros l Hl.
+  - destruct l; [reflexivity|cbn in Hl; lia].
+  - destruct l as [|x l]; [reflexivity|].
+    cbn [chunks concat]. rewrite IH.
+    + apply firstn_skipn.
+    + rewrite skipn_length. cbn [length] in *. lia.
+Qed.
+
+Lemma chunks_length k : (0 < k)%nat -> forall fuel l c,
+  (length l <= fuel)%nat -> Nat.modulo (length l) k = 0%nat -> In c (chunks fuel k l) -> length c = k.
+Proof.
+  intros Hk. induction fuel as [|fuel IH]; intros l c Hl Hm Hin.
+  - destruct l; contradiction.
+  - destruct l as [|x l]; [contradiction|].
+    assert (Hge : (k <= length (x :: l))%nat).
+    { apply Nat.mod_divides in Hm as [q Hq]; [|lia]. destruct q; [cbn [length] in Hq; lia|]. rewrite Hq. nia. }
+    cbn [chunks] in Hin. destruct Hin as [<-|Hin].
+    + apply firstn_length_le. exact Hge.
+    + apply IH in Hin; [exact Hin| |].
+      * rewrite skipn_length. cbn [length] in *. lia.
+      * rewrite skipn_length.
+        apply Nat.mod_divides in Hm as [q Hq]; [|lia]. apply Nat.mod_divides; [lia|].
+        exists (q - 1)%nat. rewrite Hq. destruct q; [cbn [length] in Hq; lia|]. nia.
+Qed.
+
+Lemma comm_size_pos ty k : comm_size ty = Some k -> (0 < k)%nat.
+Proof.
+  unfold comm_size. intros H.
+  repeat match type of H with
+         | match ?x with _ => _ end = _ => destruct x; try discriminate
+         end; injection H as <-; lia.
+Qed.
+
+(* an attribute's members, put together again, are its value: no octet is lost or invented *)
+Lemma attr_comms_value a cs : attr_comms a = Some cs ->
+  concat (map snd cs) = a_value a /\ Forall (fun c => fst c = a_type a) cs.
+Proof.
+  unfold attr_comms. destruct (comm_size (a_type a)) as [k|] eqn:Ek; [|discriminate].
+  destruct (Nat.eqb _ 0); [|discriminate]. intros [= <-]. split.
+  - rewrite map_map. cbn [snd]. rewrite map_id. apply chunks_concat; [eapply comm_size_pos; eauto|lia].
+  - apply Forall_forall. intros c Hc. apply in_map_iff in Hc as (x & <- & _). reflexivity.
+Qed.
+
+Lemma attr_comms_size a cs c : attr_comms a = Some cs -> In c cs ->
+  exists k, comm_size (fst c) = Some k /\ length (snd c) = k.
+Proof.
+  unfold attr_comms. destruct (comm_size (a_type a)) as [k|] eqn:Ek; [|discriminate].
+  destruct (Nat.eqb _ 0) eqn:Em; [|discriminate]. intros [= <-] Hc.
+  apply in_map_iff in Hc as (x & <- & Hx). exists k. split; [exact Ek|]. cbn [snd].
+  eapply chunks_length; eauto; [eapply comm_size_pos; eauto|apply Nat.eqb_eq, Em].
+Qed.
+
+Lemma json_comms_cons a l : json_comms (a :: l) = match attr_comms a with Some cs => cs | None => [] end ++ json_comms l.
+Proof. reflexivity. Qed.
+Lemma json_kinds_cons a l :
+  json_kinds (a :: l) = (if is_mp a then [] else match attr_comms a with Some _ => [] | None => [a_type a] end) ++ json_kinds l.
+Proof. reflexivity. Qed.
+
+(* whatever the order of the attributes, the community list has the same members, each as
+   often; so has the list of other elements *)
+Lemma json_comms_perm l l' : Permutation l l' -> Permutation (json_comms l) (json_comms l').
+Proof.
+  induction 1 as [|a l l' _ IH|a b l|l1 l2 l3 _ IH1 _ IH2].
+  - constructor.
+  - rewrite !json_comms_cons. apply Permutation_app_head, IH.
+  - rewrite !json_comms_cons, !app_assoc. apply Permutation_app_tail, Permutation_app_comm.
+  - eapply perm_trans; eauto.
+Qed.
+
+Lemma json_kinds_perm l l' : Permutation l l' -> Permutation (json_kinds l) (json_kinds l').
+Proof.
+  induction 1 as [|a l l' _ IH|a b l|l1 l2 l3 _ IH1 _ IH2].
+  - constructor.
+  - rewrite !json_kinds_cons. apply Permutation_app_head, IH.
+  - rewrite !json_kinds_cons, !app_assoc. apply Permutation_app_tail, Permutation_app_comm.
+  - eapply perm_trans; eauto.
+Qed.
+
+(* membership with multiplicity: a community is listed exactly as often as the UPDATE's
+   community attributes carry it *)
+Definition comm_eq_dec : forall x y : comm, {x = y} + {x <> y}.
+Proof. decide equality; [apply (list_eq_dec N.eq_dec)|apply N.eq_dec]. Defined.
+
+Definition occ_in_attr (c : comm) (a : attr) : nat :=
+  match attr_comms a with Some cs => count_occ comm_eq_dec cs c | None => 0%nat end.
+
+Lemma json_comms_count l c :
+  count_occ comm_eq_dec (json_comms l) c = list_sum (map (occ_in_attr c) l).
+Proof.
+  induction l as [|a l IH]; [reflexivity|].
+  rewrite json_comms_cons, count_occ_app, IH. cbn [map list_sum]. unfold occ_in_attr.
+  destruct (attr_comms a); reflexivity.
+Qed.
+
+Lemma json_comms_in l c : In c (json_comms l) <-> exists a cs, In a l /\ attr_comms a = Some cs /\ In c cs.
+Proof.
+  unfold json_comms. rewrite in_flat_map. split.
+  - intros (a & Ha & Hc). destruct (attr_comms a) as [cs|] eqn:E; [|contradiction]. eauto.
+  - intros (a & cs & Ha & E & Hc). exists a. rewrite E. auto.
+Qed.
+
+(* per community attribute type: the members listed for that type, in list order, are the
+   values of the UPDATE's attributes of that type, in PDU order, octet for octet *)
+Lemma filter_fst_all (ty : N) (cs : list comm) : Forall (fun c => fst c = ty) cs -> filter (fun c : comm => fst c =? ty) cs = cs.
+Proof.
+  induction 1 as [|c cs Hc _ IH]; [reflexivity|]. cbn [filter]. rewrite Hc, N.eqb_refl, IH. reflexivity.
+Qed.
+Lemma filter_fst_none (ty ty' : N) (cs : list comm) : (ty' =? ty) = false -> Forall (fun c => fst c = ty') cs ->
+  filter (fun c : comm => fst c =? ty) cs = [].
+Proof.
+  intros Hn. induction 1 as [|c cs Hc _ IH]; [reflexivity|]. cbn [filter]. rewrite Hc, Hn, IH. reflexivity.
+Qed.
+
+Lemma json_comms_bytes ty l :
+  concat (map snd (filter (fun c : comm => fst c =? ty) (json_comms l))) =
+  concat (map a_value (filter (is_comm_attr ty) l)).
+Proof.
+  induction l as [|a l IH]; [reflexivity|].
+  rewrite json_comms_cons, filter_app, map_app, concat_app. cbn [filter].
+  unfold is_comm_attr at 1. destruct (attr_comms a) as [cs|] eqn:E.
+  - destruct (attr_comms_value _ _ E) as [Hv Hty].
+    destruct (a_type a =? ty) eqn:Et; cbn [andb map concat].
+    + apply N.eqb_eq in Et. rewrite <- Et, (filter_fst_all _ _ Hty). unfold comm in *. rewrite Hv, Et. f_equal. exact IH.
+    + rewrite (filter_fst_none _ _ _ Et Hty). exact IH.
+  - rewrite andb_false_r. exact IH.
+Qed.
+
+Lemma json_comms_member_size l c : In c (json_comms l) -> exists k, comm_size (fst c) = Some k /\ length (snd c) = k.
+Proof. rewrite json_comms_in. intros (a & cs & _ & E & Hc). eapply attr_comms_size; eauto. Qed.
+
+(* the other elements: every attribute that is neither MP_REACH/MP_UNREACH nor a community
+   attribute, once, in PDU order; the two MP attributes never *)
+Lemma json_kinds_exact l : json_kinds l = map a_type (filter is_plain_attr l).
+Proof.
+  induction l as [|a l IH]; [reflexivity|].
+  rewrite json_kinds_cons, IH. cbn [filter]. unfold is_plain_attr at 2.
+  destruct (is_mp a); [reflexivity|]. destruct (attr_comms a); reflexivity.
+Qed.
+
+Lemma json_kinds_no_mp l : ~ In 14 (json_kinds l) /\ ~ In 15 (json_kinds l).
+Proof.
+  rewrite json_kinds_exact. split; intros H; apply in_map_iff in H as (a & Ht & Ha);
+    apply filter_In in Ha as [_ Hp]; unfold is_plain_attr, is_mp, is_reach, is_unreach in Hp;
+    rewrite Ht in Hp; cbn in Hp; discriminate.
+Qed.
+
+(* every attribute of the UPDATE is accounted for in exactly one way *)
+Lemma json_accounting l :
+  (length (json_kinds l) + count_if (fun a => match attr_comms a with Some _ => true | None => false end) l
+   + count_if (fun a => is_mp a && match attr_comms a with Some _ => false | None => true end) l = length l)%nat.
+Proof.
+  unfold count_if. induction l as [|a l IH]; [reflexivity|].
+  rewrite json_kinds_cons, app_length. cbn [filter length].
+  destruct (is_mp a), (attr_comms a); cbn [andb length app]; lia.
+Qed.
+
+(* an MP attribute is never a community attribute *)
+Lemma mp_not_comm a : is_mp a = true -> attr_comms a = None.
+Proof.
+  unfold is_mp, is_reach, is_unreach, attr_comms. intros H.
+  apply orb_prop in H as [H|H]; apply N.eqb_eq in H; rewrite H; reflexivity.
+Qed.
+
+Lemma json_accounting' l :
+  (length (json_kinds l) + count_if (fun a => match attr_comms a with Some _ => true | None => false end) l
+   + count_if is_mp l = length l)%nat.
+Proof.
+  rewrite <- (json_accounting l). f_equal. unfold count_if. f_equal.
+  apply filter_ext. intros a. destruct (is_mp a) eqn:E; [|reflexivity].
+  rewrite (mp_not_comm _ E). reflexivity.
+Qed.
+
+(* through the bytes: what is rendered for the routes of encode u is the shape of u's attributes *)
+Lemma json_of_bytes m u : wf u = true ->
+  match decode m (encode u) with Some u' => json_of_update u' | None => None end = json_of_update u.
+Proof. intros H. rewrite (roundtrip m u H). reflexivity. Qed.
+
+Lemma json_example_ok :
+  json_shape attrs_json_example =
+  MkShape [1; 8] [(32, [0;0;253;232; 0;0;0;1; 0;0;0;2]); (16, [0;2;253;232;0;0;0;100]); (8, [253;232;0;1]); (8, [253;232;0;2])].
+Proof. vm_compute. reflexivity. Qed.
+
+Lemma json_order_irrelevant l l' : Permutation l l' ->
+  Permutation (json_comms l) (json_comms l') /\ Permutation (json_kinds l) (json_kinds l').
+Proof. intros H. split; [apply json_comms_perm|apply json_kinds_perm]; exact H. Qed.
+
+Lemma json_kinds_spec l : json_kinds l = map a_type (filter is_plain_attr l) /\ ~ In 14 (json_kinds l) /\ ~ In 15 (json_kinds l).
+Proof. split; [apply json_kinds_exact|apply json_kinds_no_mp]. Qed.
